@@ -141,9 +141,12 @@ def _classify(run, fi, f, el, comp, facts, indefs, cfg, s, argname, stored_name)
                         matches('all([type(_V) == type(%s) for _V in _X])' % s, t) is not None or
                         matches('all(map(lambda _V: isinstance(_V, type(%s)), _X))' % s, t) is not None):
                 return 'ok', 'elements are values of objects whose class was tested equal to the receiver\'s'
-            if pol and matches('isinstance(_X, %s.__class__)' % s, t) is not None:
+            b_ = matches('isinstance(_X, %s.__class__)' % s, t) if pol else None
+            # the argument ITSELF is an object of the class (arg.A / arg.data), not an element of it
+            if b_ is not None and isinstance(b_['_X'], ast.Name) and b_['_X'].id == argname and isinstance(el.value, ast.Name) and el.value.id == argname:
                 return 'ok', 'value of an object of the same class'
-        return 'bad', 'values taken from list elements whose class is not tested on every element'
+        return 'bad', ('values taken from list elements whose class is not tested on every element (class EQUALITY of each element: an '
+                       'isinstance test of the first element admits subclass objects, whose arrays have another shape)')
     if isinstance(el, ast.Call) and isinstance(el.func, ast.Attribute) and el.func.attr == 'copy':
         for fc in facts:
             t, pol = fc[2].ast, fc[1]
